@@ -23,7 +23,9 @@ MIN_DISTINCT = {"quick": 200, "thorough": 10000}
 def configs():
     return [(1, (("s",),), True), (1, (("s", "s"),), True), (2, (("s",), ("s",)), True), (2, (("a", "s"), ("s",)), True),
             (2, (("s",), ("s",)), False), (3, (("s",), ("s",), ("a",)), False),
-            (1, (("s", "s"),), "poller"), (2, (("s",), ("a", "s")), "poller")]
+            (1, (("s", "s"),), "poller"), (2, (("s",), ("a", "s")), "poller"),
+            # a result whose application callback raises in whichever thread dispatches the reply
+            (1, (("sx",),), True), (2, (("sx",), ("s",)), True), (2, (("sx",), ("s",)), False)]
 
 
 def record(ctx, obs):
